@@ -23,6 +23,9 @@ sys.path.insert(0, HERE)
 from variants import VARIANTS  # noqa
 
 
+RENAMED = False
+
+
 def run_variant(v, with_tests=False):
     d = tempfile.mkdtemp(prefix="vt_")
     try:
@@ -44,6 +47,15 @@ def run_variant(v, with_tests=False):
         b = subprocess.run(["go", "build", "./..."], cwd=d, env=ENV, capture_output=True, text=True)
         if b.returncode != 0:
             return (v["id"], False, "variant does not build: " + b.stderr[-400:])
+        if RENAMED:
+            # rename every function-local name of the variant: neither the alarm nor the
+            # silence may depend on what locals are called
+            r = subprocess.run([os.path.join(VERIF, "bin", "renamer"), "-src", d, "-dst", d], env=ENV, capture_output=True, text=True)
+            if r.returncode != 0:
+                return (v["id"], False, "renamer failed: " + (r.stdout + r.stderr)[-300:])
+            b = subprocess.run(["go", "build", "./..."], cwd=d, env=ENV, capture_output=True, text=True)
+            if b.returncode != 0:
+                return (v["id"], False, "renamed variant does not build: " + b.stderr[-400:])
         if with_tests and v["kind"] == "break" and not v.get("tests_fail"):
             t = subprocess.run(["go", "test", "-count=1", "-vet=off", "./..."], cwd=d, env=ENV, capture_output=True, text=True)
             if t.returncode != 0:
@@ -83,7 +95,10 @@ def main():
     ap.add_argument("-j", type=int, default=8)
     ap.add_argument("--tests", action="store_true")
     ap.add_argument("--json", default="")
+    ap.add_argument("--renamed", action="store_true", help="rename all locals of each variant before checking")
     a = ap.parse_args()
+    global RENAMED
+    RENAMED = a.renamed
     vs = [v for v in VARIANTS if a.k in v["id"] or a.k in str(v["prop"])]
     ok = True
     results = []
